@@ -36,6 +36,7 @@ sexp sexp_json_write_exception (sexp ctx, sexp self, const char* msg, sexp obj) 
 
 sexp json_read_number (sexp ctx, sexp self, sexp in) {
   double res = 0, scale = 1;
+  sexp_uint_t ires = 0;
   int sign = 1, inexactp = 0, scale_sign = 1, ch;
   ch = sexp_read_char(ctx, in);
   if (ch == '+') {
@@ -44,8 +45,14 @@ sexp json_read_number (sexp ctx, sexp self, sexp in) {
     ch = sexp_read_char(ctx, in);
     sign = -1;
   }
-  for ( ; ch != EOF && isdigit(ch); ch = sexp_read_char(ctx, in))
+  for ( ; ch != EOF && isdigit(ch); ch = sexp_read_char(ctx, in)) {
     res = res * 10 + ch - '0';
+    /* keep integers exact while they fit a fixnum (a double loses bits above 2^53) */
+    if (ires > (SEXP_MAX_FIXNUM - (ch - '0')) / 10)
+      inexactp = 1;
+    else
+      ires = ires * 10 + (ch - '0');
+  }
   if (ch == '.') {
     inexactp = 1;
     for (ch = sexp_read_char(ctx, in); isdigit(ch); scale *= 10, ch = sexp_read_char(ctx, in))
@@ -65,9 +72,9 @@ sexp json_read_number (sexp ctx, sexp self, sexp in) {
     res *= pow(10.0, scale_sign * scale);
   }
   if (ch != EOF) sexp_push_char(ctx, ch, in);
-  return (inexactp || fabs(res) > SEXP_MAX_FIXNUM) ?
+  return inexactp ?
     sexp_make_flonum(ctx, sign * res) :
-    sexp_make_fixnum(sign * res);  /* always return inexact? */
+    sexp_make_fixnum(sign * (sexp_sint_t)ires);  /* always return inexact? */
 }
 
 sexp json_read_literal (sexp ctx, sexp self, sexp in, char* name, sexp value) {
